@@ -3,6 +3,7 @@ package streamsim
 import (
 	"bytes"
 	"io"
+	"time"
 
 	"github.com/tsenart/vegeta/v12/internal/simrt"
 	simcommon "github.com/tsenart/vegeta/v12/internal/zzsim/common"
@@ -30,6 +31,11 @@ func runTrunc(t *simrt.Tape, keep bool) simrt.Outcome {
 		o.MaxBody = 100 << 10
 	}
 	rs := genResults(r, n, o)
+	if f == "json" && n > 1 && t.Prob(1, 8) {
+		// an Encode call that fails (a timestamp the JSON layout cannot represent) emits nothing, and the
+		// encoder, if it still accepts results afterwards, keeps emitting one whole record per call
+		return runTruncRefused(r, t, rs)
+	}
 	file, ends, ok := encodeAll(r, "C09", f, rs)
 	sample := map[string]any{"format": f, "records": n, "bytes": len(file.Data)}
 	if !ok {
@@ -249,4 +255,46 @@ func runMulti(t *simrt.Tape, keep bool) simrt.Outcome {
 	}
 	r.stats["probe.inputs-"+simrt.Itoa(k)]++
 	return r.outcome(sample, true)
+}
+
+func runTruncRefused(r *run, t *simrt.Tape, rs []vegeta.Result) simrt.Outcome {
+	bad := t.Choose(len(rs))
+	rs[bad].Timestamp = time.Date(10000+t.Choose(100), 1, 1, 0, 0, 0, 0, time.UTC)
+	file := &simrt.SimFile{}
+	var written []vegeta.Result
+	var ends []int
+	refused := 0
+	r.guard("C09", "json encoder", func() {
+		enc := vegeta.NewJSONEncoder(file)
+		for i := range rs {
+			before := len(file.Data)
+			if err := enc.Encode(&rs[i]); err != nil {
+				refused++
+				if len(file.Data) != before {
+					r.fail("C09", "C09.failed-encode-wrote", nil, "an Encode call that returned %v still wrote %d bytes", err, len(file.Data)-before)
+					return
+				}
+				continue
+			}
+			written = append(written, rs[i])
+			ends = append(ends, len(file.Data))
+		}
+	})
+	r.log.Addf("json refused-record at %d of %d: refused=%d written=%d", bad, len(rs), refused, len(written))
+	r.stats["fault.encode-refused"] += refused
+	if r.viol == nil {
+		// after every successful call the bytes written so far decode to exactly the records encoded so far
+		for k, e := range ends {
+			got, _ := decodeAll(r, "C09", "json decoder", decoderFor("json", simrt.PlainReader(file.Data[:e])), len(rs)+2)
+			if len(got) != k+1 {
+				r.fail("C09", "C09.record-per-call", nil, "after %d successful Encode calls (one earlier call had failed) the %d bytes written decode to %d records: a call did not emit exactly one whole record", k+1, e, len(got))
+				break
+			}
+			if d := simcommon.DiffResults(&written[k], &got[k]); d != "" {
+				r.fail("C09", "C09.record-per-call", nil, "record %d written after a failed Encode call differs from the result passed in: %s", k, d)
+				break
+			}
+		}
+	}
+	return r.outcome(map[string]any{"format": "json", "records": len(rs), "refused": refused}, true)
 }
